@@ -367,6 +367,8 @@ class Interp(object):
 
     def get_attr(self, obj, name, where=None):
         if isinstance(obj, SObj):
+            if name == "__class__":
+                return obj.cls
             raw = self.class_attr(obj.cls, name)
             if isinstance(raw, property):
                 return self.call_value(BoundMethod(raw.fget, obj), [], {})
